@@ -167,7 +167,12 @@ func TestProp(t *testing.T) {
 		if rapid.IntRange(0, 4).Draw(t, "twomethods") == 0 {
 			methods = []string{"GET", "POST", "*"}
 		}
-		regs, _ := gen.RouteSet(t, gen.SetOpts{Methods: methods})
+		opts := gen.SetOpts{Methods: methods}
+		if evid.Thorough() {
+			// deeper and larger sets in the thorough tier
+			opts.MaxRoutes, opts.PoolSize, opts.Route.MaxSegs = 12, 8, 6
+		}
+		regs, _ := gen.RouteSet(t, opts)
 		// registration order is part of the case: shuffle by drawing a permutation
 		regs = rapid.Permutation(regs).Draw(t, "order")
 		regs = revalidate(regs)
